@@ -1,6 +1,7 @@
 import RzilVerif.Model.DriverText
 import RzilVerif.Model.ILSem
 import RzilVerif.Lemmas.LayoutPerm
+import RzilVerif.Lemmas.LayoutDup
 /-!
 # C16 — both output layouts denote the same effect
 
@@ -225,5 +226,94 @@ example : denoteIL { header := none, items := hoistPures exPureUsesEffect } ≠
   intro h
   have h' : some (Term.app "G" [.app "F" [.id "e"]]) = some (Term.app "G" [.app "F" [.app "W" [.id "Rs"]]]) := h
   simp at h'
+
+/-! ### The layout relation modulo `DUP` -/
+
+/-- `denoteIL` erases `DUP` at the end, so it does not matter where the `DUP`s stand in the declarations: erasing
+    `DUP` in every right-hand side and in the returned term beforehand gives the same denotation. -/
+theorem denoteIL_eraseDupItems (b : Body) :
+    denoteIL { b with items := b.items.map Item.eraseDup } = denoteIL b := by
+  simp only [denoteIL, returned_eraseDup]
+  cases returned b.items with
+  | none => rfl
+  | some r =>
+    simp only [Option.map_some, Option.bind_eq_bind, Option.bind_some]
+    rw [Term.eraseDup_subst (buildEnvIL_eraseDup b.items (EnvDupEq.refl [])) r]
+
+/-- What the fields `(wf-dup 1) (hoist-equal-dup 1)` of the driver answer buy: the two texts denote the same term,
+    also when the layouts disagree about WHICH read of a shared variable is the raw one and which are `DUP(..)`. -/
+theorem layout_rel_sound_dup (rs ec : Body) (hwf : LayoutWF (rs.items.map Item.eraseDup) = true)
+    (heq : hoistEqualD rs.items ec.items = true) : denoteIL ec = denoteIL rs := by
+  have h := layout_rel_sound { rs with items := rs.items.map Item.eraseDup }
+    { ec with items := ec.items.map Item.eraseDup } hwf heq
+  rw [denoteIL_eraseDupItems, denoteIL_eraseDupItems] at h
+  exact h
+
+/-- The same with the side condition on the list as written (`layoutWF_eraseDup`: it is the same condition). -/
+theorem layout_rel_sound_dup' (rs ec : Body) (hwf : LayoutWF rs.items = true)
+    (heq : hoistEqualD rs.items ec.items = true) : denoteIL ec = denoteIL rs :=
+  layout_rel_sound_dup rs ec (by rw [layoutWF_eraseDup]; exact hwf) heq
+
+/-- `hoistEqualD` is weaker than `hoistEqual`. -/
+theorem hoistEqualD_of_hoistEqual (rs ec : List Item) (h : hoistEqual rs ec = true) : hoistEqualD rs ec = true := by
+  have ild : ∀ items : List Item, ilDecls (items.map Item.eraseDup) =
+      (ilDecls items).map (fun d => (d.1, d.2.1, d.2.2.eraseDup)) := by
+    intro items
+    induction items with
+    | nil => rfl
+    | cons x rest ih =>
+      cases x with
+      | comment s => exact ih
+      | ret t => exact ih
+      | decl ty n rhs =>
+        simp only [List.map_cons, Item.eraseDup, ilDecls]
+        split
+        · simp only [List.map_cons, ih]
+        · exact ih
+  simp only [hoistEqual, Bool.and_eq_true] at h
+  have h1 := declsEqb_sound _ _ h.1
+  have h2 := optTermEqb_sound _ _ h.2
+  simp only [hoistEqualD, hoistEqual, Bool.and_eq_true, hoistPures_eraseDup, ild, returned_eraseDup, h1, h2,
+    declsEqb_refl, true_and]
+  cases returned ec with
+  | none => rfl
+  | some t => exact Term.eqb_refl _
+
+/-- READ_STATEMENTS: statement 1 reads `a` raw, statement 2 reads it through `DUP` … -/
+def exDupRS : List Item :=
+  [.decl "RzILOpPure *" "a" (.app "ADD" [.id "Rs", .app "SN" [.num 32, .num 1]]),
+   .decl "RzILOpEffect *" "e1" (.app "WRITE_REG" [.id "bundle", .id "Rd_op", .id "a"]),
+   .decl "RzILOpBool *" "c" (.app "ULT" [.app "DUP" [.id "a"], .id "Rt"]),
+   .decl "RzILOpEffect *" "e2" (.app "BRANCH" [.id "c", .app "JMP" [.id "Rt"], .app "EMPTY" []]),
+   .ret (.app "SEQN" [.num 2, .id "e1", .id "e2"])]
+
+/-- … EXEC_CLASSES: the value declarations are rendered first, so `c` gets the raw read and `e1` the `DUP`. -/
+def exDupEC : List Item :=
+  [.decl "RzILOpPure *" "a" (.app "ADD" [.id "Rs", .app "SN" [.num 32, .num 1]]),
+   .decl "RzILOpBool *" "c" (.app "ULT" [.id "a", .id "Rt"]),
+   .decl "RzILOpEffect *" "e1" (.app "WRITE_REG" [.id "bundle", .id "Rd_op", .app "DUP" [.id "a"]]),
+   .decl "RzILOpEffect *" "e2" (.app "BRANCH" [.id "c", .app "JMP" [.id "Rt"], .app "EMPTY" []]),
+   .ret (.app "SEQN" [.num 2, .id "e1", .id "e2"])]
+
+example : hoistEqual exDupRS exDupEC = false := by decide +kernel
+example : hoistEqualD exDupRS exDupEC = true := by decide +kernel
+example : LayoutWF (exDupRS.map Item.eraseDup) = true := by decide +kernel
+
+example : denoteIL { header := none, items := exDupEC } = denoteIL { header := none, items := exDupRS } :=
+  layout_rel_sound_dup { header := none, items := exDupRS } { header := none, items := exDupEC }
+    (by decide +kernel) (by decide +kernel)
+
+/-- … and the common denotation is a genuine term. -/
+example : denoteIL { header := none, items := exDupRS } =
+    some (.app "SEQN" [.num 2,
+      .app "WRITE_REG" [.id "bundle", .id "Rd_op", .app "ADD" [.id "Rs", .app "SN" [.num 32, .num 1]]],
+      .app "BRANCH" [.app "ULT" [.app "ADD" [.id "Rs", .app "SN" [.num 32, .num 1]], .id "Rt"],
+                     .app "JMP" [.id "Rt"], .app "EMPTY" []]]) := by rfl
+
+/-- `hoistEqualD` still separates layouts that really differ (another operand). -/
+example : hoistEqualD exDupRS
+    (exDupEC.map (fun i => match i with
+      | .decl ty "c" _ => .decl ty "c" (.app "ULT" [.id "a", .id "Rs"])
+      | i => i)) = false := by decide +kernel
 
 end Rzil
